@@ -53,6 +53,19 @@ One case = one object + one family of scenarios:
           deliberately invalid cases contributes nothing): no id, right id, bit
           flips, truncated, random id, raw manifests, evolve, from_dict - every
           valid object, whatever its content, is accepted with its right id
+  history several different valid objects of the same kind in one process: A, an
+          equal twin, the same instance again, B / C / D (A with one or more
+          fields changed: different manifests); then objects carrying EACH
+          OTHER's ids - B with A's id, A with B's id, C with the id of an object
+          that was never checked, D with its right id for the first time - in a
+          shuffled order, before and after A is checked again; with raw
+          manifests: junk for A and B, A's manifest as B's raw manifest (needed
+          for B: accepted with A's id), an object's own manifest as its raw
+          manifest (unneeded), A without raw manifest carrying the raw
+          manifest's id; evolve from A to B, of B carrying A's id (no argument,
+          back to A), the same change applied to two different sources.
+          Expected per the property: accepted iff the id is the hash of the
+          object's OWN manifest, whatever was verified / hashed / printed before
 Own generators (structural variety): revisions with 0 / 1 / 2 / many parents,
 repeated parents (adjacent, apart, all the same), a parent equal to the directory
 id, an empty parent id, every accepted presence combination of author / committer
@@ -103,7 +116,9 @@ RULE = ("per kind (origin, snapshot, release, revision, directory, raw extrinsic
         "URLs, all context combinations, payloads; repeated / empty / directory-equal / many parents, repeated header keys, "
         "alias chains and cycles, names around '/', odd perms, versions from the code's integer literals, wide byte shapes and "
         "source literals) plus the family foreign (objects built by the generators and builders of the C02/C03/C04/C05/C12/C15 "
-        "harnesses, imported defensively, run through no id / right id / flips / raw / evolve / from_dict); reads compute_hash/check/swhid in random order with repetitions; per "
+        "harnesses, imported defensively, run through no id / right id / flips / raw / evolve / from_dict) and the family "
+        "history (every second object: A, twin, same instance, variants B/C/D with other manifests, then objects carrying "
+        "each other's ids and raw manifests in shuffled order before and after A is checked again, evolve between them); reads compute_hash/check/swhid in random order with repetitions; per "
         "object the families big (oracle only: 100 kB - 1 MB manifests), and: ids (no id, right id, all 160 single-bit flips, truncated, extended, random, zero id), raw "
         "(needed / empty / unneeded raw manifests x no id, right id, attributes' id, random id, flips), evolve (every "
         "attrs field with a changed value and None where optional, no-argument evolve on a wrong id, evolve under a raw "
@@ -463,6 +478,8 @@ def gen(rng, tier):
                 if what in ("shapes", "raw", "evolve") and tier != "quick":
                     case["full"] = True          # every accepted shape in every context / every large size
                 cases.append(case)
+            if tier != "quick" or i % 2 == 0:
+                cases.append({"kind": kind, "spec": specs[kind][i], "what": "history", "seed": rng.getrandbits(32)})
             if i < (1 if tier == "quick" else 6):
                 cases.append({"kind": kind, "spec": specs[kind][i], "what": "big", "big": [1500, 700, 3000, 1100, 5000, 2049][i],
                               "seed": rng.getrandbits(32)})
@@ -487,7 +504,7 @@ def gen(rng, tier):
 
 
 def nontrivial(c):
-    return c.get("what") in ("ids", "raw", "evolve", "shapes", "big", "foreign")
+    return c.get("what") in ("ids", "raw", "evolve", "shapes", "big", "foreign", "history")
 
 
 def classify(c):
@@ -688,6 +705,7 @@ def _flip(b, k):
 
 
 _ABSENT = object()
+_HISTORY_ALWAYS = ("A:noid", "A:twin-right-id", "A:same-instance-again")
 
 
 def _construct(cls, kw, raw=_ABSENT, idv=b""):
@@ -965,8 +983,8 @@ def impl(c):
         probe on ref_fields.  kw_over: some constructor arguments replaced (the attributes' manifest is then taken from
         the library for THAT object).  nomodel: too large for the executable SHA-1 of the model: oracle only.
         given_id: the id argument as actually passed (a bytes subclass ...), equal to idv"""
-        if only and label not in only:
-            return
+        if only and label not in only and not (what == "history" and label in _HISTORY_ALWAYS):
+            return                   # (a shrunk history case keeps the steps that create the history)
         st = {"label": label, "rawarg": _enc_rawarg(raw), "id": idv.hex()}
         if nomodel:
             st["nomodel"] = True
@@ -1251,6 +1269,102 @@ def impl(c):
             evolve_step("anonymized:%s" % f0, _ABSENT, b"", {f0: v0}, base_obj=anon)
             if c.get("full"):
                 evolve_step("anonymized:same:%s" % f0, _ABSENT, b"", {f0: getattr(anon, f0)}, base_obj=anon)
+    elif what == "history" and right is not None:
+        # HISTORY: several different valid objects of the same kind live in the same process; what was answered for one
+        # (its id was verified, hashed, printed) must never be served for another: objects carrying EACH OTHER's ids,
+        # before and after the owner of the id was checked (again), with and without raw manifests.
+        names = [a.name for a in attr.fields(cls) if a.name not in ("id", "raw_manifest")]
+        fdict = attr.fields_dict(cls)
+        pid = b"\x01" * 20
+        variants = []                      # [(kw_over, manifest)] with pairwise different manifests, all different from A's
+        seen = {am}
+        order = list(names)
+        rng.shuffle(order)
+        for n in order * 2:
+            if len(variants) >= 4:
+                break
+            try:
+                cur = variants[-1][0].get(n, getattr(probe, n)) if variants and rng.random() < 0.5 else getattr(probe, n)
+                base_over = dict(variants[-1][0]) if variants and rng.random() < 0.3 else {}
+                for v in alt_values(kind, n, cur, fdict[n], rng)[:2]:
+                    over = dict(base_over, **{n: v})
+                    m2 = attrs_manifest(kind, cls(**dict(kw, **over), id=pid))
+                    if m2 is not None and m2 not in seen:
+                        seen.add(m2)
+                        variants.append((over, m2))
+                        break
+            except Exception:
+                continue
+        ids_of = [hashlib.sha1(m).digest() for _, m in variants]
+        A0 = None
+        try:
+            A0 = _construct(cls, kw, _ABSENT, b"")
+        except Exception:
+            pass
+        build_step("A:noid", _ABSENT, b"")
+        build_step("A:twin-right-id", _ABSENT, right)
+        if A0 is not None:
+            build_step("A:same-instance-again", _ABSENT, b"", builder=lambda: A0)
+        blocks = []
+
+        def blk(*a, **k):
+            blocks.append((a, k))
+        for i, (over, m2) in enumerate(variants[:3]):
+            nm = "BCD"[i]
+            if i < 2:
+                blk("%s:noid" % nm, _ABSENT, b"", kw_over=over)                       # B and C are built and checked
+            blk("%s:with-A's-id" % nm, _ABSENT, right, kw_over=over)
+            blk("A:with-%s's-id" % nm, _ABSENT, ids_of[i])                            # D's id was never verified
+            for j in range(len(variants)):
+                if j != i:
+                    blk("%s:with-%s's-id" % (nm, "BCDE"[j]), _ABSENT, ids_of[j], kw_over=over)
+            if i == 2:
+                blk("%s:right-id-first-time" % nm, _ABSENT, ids_of[i], kw_over=over)
+        if has_raw:
+            rid = hashlib.sha1(junk).digest()
+            blk("A:raw-junk-noid", junk, b"")
+            blk("A:no-raw-with-raw's-id", _ABSENT, rid)
+            for i, (over, m2) in enumerate(variants[:2]):
+                nm = "BC"[i]
+                blk("%s:raw-junk-rightid" % nm, junk, rid, kw_over=over)              # needed for B as well: accepted
+                blk("%s:raw-junk-with-A's-id" % nm, junk, right, kw_over=over)
+                blk("%s:raw=A's-manifest-with-A's-id" % nm, am, right, kw_over=over)   # for B this raw manifest is NEEDED
+                blk("A:raw=%s's-manifest-with-its-id" % nm, m2, ids_of[i])
+                blk("%s:raw=own-manifest-with-own-id" % nm, m2, ids_of[i], kw_over=over)   # unneeded: rejected
+            blk("A:raw=own-manifest-with-own-id", am, right)
+        rng.shuffle(blocks)
+        half = len(blocks) // 2
+        for a, k in blocks[:half]:
+            build_step(*a, **k)
+        # the owner of the id is checked again (a new equal object, then the very same instance), then all the rest
+        build_step("A:checked-again", _ABSENT, right)
+        if A0 is not None:
+            build_step("A:same-instance-checked-again", _ABSENT, b"", builder=lambda: A0)
+        for a, k in blocks[half:]:
+            build_step(*a, **k)
+        for i, (over, m2) in enumerate(variants[:2]):
+            build_step("%s:with-A's-id-after" % "BC"[i], _ABSENT, right, kw_over=over)
+        # evolve with a history: the same change applied to two different sources; a source carrying another object's id
+        if variants:
+            over0 = variants[0][0]
+            evolve_step("evolve:A-to-B", _ABSENT, b"", dict(over0))
+            try:
+                Bx = cls(**dict(kw, **over0), id=right)                               # B's content with A's id
+                evolve_step("evolve:B-with-A's-id:noarg", _ABSENT, b"", {}, base_obj=Bx)
+                evolve_step("evolve:B-with-A's-id:back-to-A", _ABSENT, b"", {k: kw.get(k, getattr(probe, k)) for k in over0}, base_obj=Bx)
+            except Exception:
+                pass
+            if len(variants) > 1:
+                over1 = variants[1][0]
+                f1 = [n for n in names if n not in over1][:1]
+                if f1:
+                    v1 = alt_values(kind, f1[0], getattr(probe, f1[0]), fdict[f1[0]], rng)[0]
+                    evolve_step("evolve:same-change-on-A", _ABSENT, b"", {f1[0]: v1})
+                    try:
+                        Cx = cls(**dict(kw, **over1))
+                        evolve_step("evolve:same-change-on-C", _ABSENT, b"", {f1[0]: v1}, base_obj=Cx)
+                    except Exception:
+                        pass
     elif what == "foreign":
         # every valid object, whatever its content, with its right id: accepted; with another id: rejected
         wrong = _flip(right, rng.randrange(160)) if right is not None else _sha(rng)
